@@ -13,6 +13,7 @@ mod c09;
 mod c10;
 mod c11;
 mod c12;
+mod c13;
 mod canon;
 mod common;
 mod enumr;
@@ -37,7 +38,7 @@ pub struct Check {
 }
 
 fn registry() -> Vec<Check> {
-	vec![c01::CHECK, c02::CHECK, c03::CHECK, c04::CHECK, c05::CHECK, c06::CHECK, c08::CHECK, c09::CHECK, c10::CHECK, c11::CHECK, c12::CHECK]
+	vec![c01::CHECK, c02::CHECK, c03::CHECK, c04::CHECK, c05::CHECK, c06::CHECK, c08::CHECK, c09::CHECK, c10::CHECK, c11::CHECK, c12::CHECK, c13::CHECK]
 }
 
 fn usage() -> ! {
